@@ -1,8 +1,8 @@
 \* generated by lib/gen_cfgs.py from lib/props.py - do not edit
 SPECIFICATION Spec
 CONSTANTS
-  N = 3
-  NS = 2
+  N = 2
+  NS = 1
   NP = 0
   NW = 0
   FIN = TRUE
@@ -12,17 +12,17 @@ CONSTANTS
   MAXWC = 32767
   MaxRoots = 2
   MaxWRoots = 0
-  MaxOps = 6
-  MaxFaults = 0
-  MaxTraceK = 0
+  MaxOps = 5
+  MaxFaults = 1
+  MaxTraceK = 1
   BUG_STALE_TC = FALSE
   BUG_NESTED_FLAGS = FALSE
-  OPS = {"clear", "clone", "clonef", "collect", "drop", "fagain", "mark", "new", "put", "set", "take", "unwrap"}
+  OPS = {"clean", "collect", "drop", "dropcl", "new", "put", "register"}
   AUTOF = TRUE
   AUTO0 = FALSE
   SZ = 160
-  CLEAN = FALSE
-  MaxActs = 0
+  CLEAN = TRUE
+  MaxActs = 2
   BUG_CLEAN_REENTRANT = FALSE
 INVARIANT NoViolation
 INVARIANT StructInv
